@@ -5,7 +5,7 @@
 import os, sys
 sys.path.insert(0, os.path.join(os.environ.get("AIOFTP_REPO", "/repo"), "src"))
 OBLIGATION = 'aioftp.server:Server.dispatcher/set-up::Server.dispatcher/set-up/exit:one-new-backend-instance-bound-to-this-session'
-MODEL = {'block_size!0': 1, 'restart_offset!10': 0, 'u_cur_home!117': 'Empty(Seq(String))', 'socket_timeout!35': '1/2', 'cwd!118': 'Empty(Seq(String))', 'idle_timeout!34': '1/2', 'path_timeout!28': '0/1', 'current_directory_done!16': True, 'current_directory_present!15': True, 'logged_present!13': False, 'logged_done!14': True}
+MODEL = {'logged_present!13': False, 'path_timeout!28': '0/1', 'socket_timeout!35': '1/2', 'cwd!140': 'Empty(Seq(String))', 'block_size!0': 1, 'u_cur_home!139': 'Empty(Seq(String))', 'idle_timeout!34': '1/2', 'current_directory_done!16': True, 'current_directory_present!15': True, 'restart_offset!10': 0, 'logged_done!14': True}
 SOLVER_NOTE = ''
 
 print("obligation", OBLIGATION, "failed; no concrete failing input could be constructed automatically")
